@@ -191,6 +191,19 @@ def impl_init():
         st["log"] = []
         st["R"] = random.Random(hash(c["sig"]) & 0xFFFF)
         base = U.scapy_from_spec(c["base"])
+        if c["ether"] is False and len(c["sig"]) % 4 == 1 and base.getlayer("TCP") is not None and not W.full(c["base"]).get("ipopts"):
+            # the same base BUILT by its owner through the Scapy API, field by field, automatic fields (ihl, len, dataofs, checksums) left unset
+            from scapy.layers.inet import IP as _IP, TCP as _TCP
+            from scapy.layers.inet6 import IPv6 as _IP6
+            from scapy.packet import Raw as _Raw
+            t0 = base.getlayer("TCP")
+            l3 = _IP(src=base.src, dst=base.dst, ttl=base.ttl, tos=base.tos, id=base.id, flags=base.flags, frag=base.frag) if base.version == 4 else \
+                _IP6(src=base.src, dst=base.dst, hlim=base.hlim, tc=base.tc, fl=base.fl)
+            built = l3 / _TCP(sport=t0.sport, dport=t0.dport, seq=t0.seq, ack=t0.ack, flags=int(t0.flags), window=t0.window, urgptr=t0.urgptr, options=list(t0.options))
+            pl = payload_without_padding(t0)
+            if pl:
+                built = built / _Raw(load=pl)
+            base = built
         given = base
         if c["ether"] == "padded":
             # as sniffed from the wire: a short Ethernet frame is padded, Scapy dissects the trailer as a Padding layer under TCP
